@@ -2,8 +2,10 @@ package reqgen
 
 import (
 	"errors"
+	"fmt"
 	"io"
 	"net/http"
+	"reflect"
 	"strings"
 
 	"github.com/gobwas/httphead"
@@ -37,15 +39,92 @@ type Built struct {
 
 // Origin finds the callback whose error value err is.
 func (b *Built) Origin(err error) (Origin, bool) {
+	if err == nil {
+		return Origin{}, false
+	}
+	t := reflect.TypeOf(err)
 	for i, e := range b.errs {
-		if e == err {
+		if reflect.TypeOf(e) != t {
+			continue
+		}
+		if t.Comparable() {
+			if e == err {
+				return b.from[i], true
+			}
+		} else if e.Error() == err.Error() {
+			// not comparable (slice, map, func, struct holding one): same
+			// dynamic type and same text. Two callbacks may share both; they
+			// are plain errors then, with the same promised answer.
 			return b.from[i], true
 		}
 	}
 	return Origin{}, false
 }
 
-func (b *Built) mkErr(who string, failKind bool, status int, reason string, hdr []HeaderKV) error {
+// error value kinds (see ErrValueKind)
+
+type valueErr struct {
+	msg  string
+	code int
+}
+
+func (e valueErr) Error() string { return e.msg }
+
+type sliceStructErr struct {
+	msg    string
+	fields []string
+}
+
+func (e sliceStructErr) Error() string { return e.msg }
+
+type fieldErrors []string
+
+func (e fieldErrors) Error() string { return strings.Join(e, "") }
+
+type mapErr map[string]string
+
+func (e mapErr) Error() string { return e["msg"] }
+
+type funcErr func() string
+
+func (e funcErr) Error() string { return e() }
+
+type nilableErr struct{ msg string }
+
+func (e *nilableErr) Error() string {
+	if e == nil {
+		return "rejected (nil *nilableErr)"
+	}
+	return e.msg
+}
+
+// PlainError makes a plain error value of the given kind whose text is reason
+// (ErrTypedNil has a fixed text).
+func PlainError(kind ErrValueKind, reason string) error {
+	switch kind {
+	case ErrWrapped:
+		return fmt.Errorf("%s%w", reason, errors.New(""))
+	case ErrValueStruct:
+		return valueErr{reason, 7}
+	case ErrSliceStruct:
+		return sliceStructErr{reason, []string{"a", "b"}}
+	case ErrSlice:
+		if len(reason) > 2 {
+			return fieldErrors{reason[:2], reason[2:]}
+		}
+		return fieldErrors{reason}
+	case ErrMap:
+		return mapErr{"msg": reason}
+	case ErrFunc:
+		return funcErr(func() string { return reason })
+	case ErrTypedNil:
+		var p *nilableErr
+		return p
+	}
+	return errors.New(reason)
+}
+
+func (b *Built) mkErr(who string, failKind bool, status int, reason string, hdr []HeaderKV, kind ...ErrValueKind) error {
 	var err error
 	var o Origin
 	if failKind { // reject
@@ -66,7 +145,11 @@ func (b *Built) mkErr(who string, failKind bool, status int, reason string, hdr 
 		err = ws.RejectConnectionError(opts...)
 		o = Origin{who, status, hdr, true, chosen}
 	} else {
-		err = errors.New(reason)
+		k := ErrNew
+		if len(kind) > 0 {
+			k = kind[0]
+		}
+		err = PlainError(k, reason)
 		o = Origin{Who: who, Status: 500}
 	}
 	b.errs = append(b.errs, err)
@@ -77,7 +160,7 @@ func (b *Built) mkErr(who string, failKind bool, status int, reason string, hdr 
 func (b *Built) outcomeErr(who string, o Outcome) error {
 	switch o.Kind {
 	case CbError:
-		return b.mkErr(who, false, 500, o.Reason, nil)
+		return b.mkErr(who, false, 500, o.Reason, nil, o.ErrKind)
 	case CbReject:
 		return b.mkErr(who, true, o.Status, o.Reason, o.Headers)
 	}
@@ -146,7 +229,7 @@ func (c *Config) negotiator(b *Built) func(httphead.Option) (httphead.Option, er
 		p := c.Ext[n]
 		switch p.Act {
 		case ExtPlainError:
-			errs[n] = b.mkErr("Negotiate("+n+")", false, 500, p.Reason, nil)
+			errs[n] = b.mkErr("Negotiate("+n+")", false, 500, p.Reason, nil, p.ErrKind)
 		case ExtReject:
 			errs[n] = b.mkErr("Negotiate("+n+")", true, p.Status, p.Reason, p.Headers)
 		}
